@@ -10,6 +10,7 @@
 //!   | cl unsub <op> | cl gate open|shut | cl sizes
 //! Front-end operations are numbered 0,1,2,… in script order (`op` = ticket).
 use crate::common::*;
+use crate::typed_batch_on;
 use futures_util::FutureExt;
 use jsonrpsee_core::client::{
 	BatchResponse, Client, ClientBuilder, ClientT, Error, IdKind, ReceivedMessage, Subscription, SubscriptionClientT,
@@ -441,6 +442,17 @@ impl Session {
 				})));
 				self.settle(&mut obs).await;
 			}
+			("tbatch", [ty, n]) => {
+				let n: usize = n.parse().unwrap();
+				if !TYPED_KINDS.contains(ty) || n == 0 {
+					obs.literal = Some("bad-op".into());
+					return obs;
+				}
+				let ty = ty.to_string();
+				let c = self.client.clone();
+				self.slots.push(Slot::Batch(tokio::spawn(async move { typed_batch_on!(c, ty.as_str(), n) })));
+				self.settle(&mut obs).await;
+			}
 			("regnotif", [m]) => {
 				let method = txt(m);
 				let c = self.client.clone();
@@ -545,6 +557,85 @@ impl Session {
 		}
 		obs
 	}
+}
+
+/// Result types the typed batches (`tbatch <ty> <n>`) are instantiated with; `show` is what the
+/// harness prints for a decoded value (the model prints the same text, Driver/ClientFamily.lean `TVal.text`).
+pub trait TypedR: serde::de::DeserializeOwned + std::fmt::Debug + Send + 'static {
+	fn show(&self) -> String;
+}
+impl TypedR for u64 {
+	fn show(&self) -> String {
+		self.to_string()
+	}
+}
+impl TypedR for String {
+	fn show(&self) -> String {
+		self.clone()
+	}
+}
+impl TypedR for bool {
+	fn show(&self) -> String {
+		self.to_string()
+	}
+}
+#[derive(serde::Deserialize, Debug)]
+pub struct Pt {
+	pub x: u64,
+	pub y: u64,
+}
+impl TypedR for Pt {
+	fn show(&self) -> String {
+		format!("{},{}", self.x, self.y)
+	}
+}
+impl TypedR for Option<u64> {
+	fn show(&self) -> String {
+		match self {
+			None => "none".into(),
+			Some(n) => format!("some:{n}"),
+		}
+	}
+}
+
+pub const TYPED_KINDS: [&str; 5] = ["u64", "str", "bool", "pt", "optu64"];
+
+pub fn typed_batch_comp<R: TypedR>(r: &BatchResponse<'_, R>) -> Comp {
+	let entries = r
+		.iter()
+		.map(|e| match e {
+			Ok(v) => Ok(v.show()),
+			Err(eo) => Err(err_obj(eo)),
+		})
+		.collect();
+	Comp::Batch { succ: r.num_successful_calls(), fail: r.num_failed_calls(), entries }
+}
+
+/// `batch_request::<R>` of `n` entries `m()` on a concrete client, `R` chosen by the type tag of the op line.
+/// (A macro rather than a function generic in the client: `impl Future + Send` of the trait method does not
+/// pass `tokio::spawn` through a generic `C: ClientT`, rust-lang/rust#100013.)
+#[macro_export]
+macro_rules! typed_batch_on {
+	($client:expr, $ty:expr, $n:expr) => {{
+		macro_rules! go {
+			($r:ty) => {{
+				let mut b = jsonrpsee_core::params::BatchRequestBuilder::new();
+				for _ in 0..$n {
+					b.insert("m", jsonrpsee_core::params::ArrayParams::new()).unwrap();
+				}
+				let r: Result<jsonrpsee_core::client::BatchResponse<'_, $r>, jsonrpsee_core::client::Error> = $client.batch_request(b).await;
+				r.map(|r| $crate::client_mock::typed_batch_comp(&r))
+			}};
+		}
+		match $ty {
+			"u64" => go!(u64),
+			"str" => go!(String),
+			"bool" => go!(bool),
+			"pt" => go!($crate::client_mock::Pt),
+			"optu64" => go!(Option<u64>),
+			other => panic!("unknown type tag {other}"),
+		}
+	}};
 }
 
 fn batch_comp(r: &BatchResponse<'_, Raw>) -> Comp {
